@@ -374,6 +374,11 @@ func liftPrim(p string, rv reflect.Value) Val {
 		return valOfBytes(b)
 	case "date":
 		t := *(*time.Time)(ptr)
+		if !t.IsZero() && TimeToTicks(t) == 0 {
+			// tick 0 is the zero time (iohelp.ReadDateBytes); a decoder that hands out 1970-01-01 for it returns a
+			// different Go value (IsZero, Equal, the year): lifted to a value no abstract date is equal to
+			return valOfBytes(append(digits(0, 8), 1))
+		}
 		return valOfBytes(digits(uint64(TimeToTicks(t)), 8))
 	}
 	panic("unknown primitive " + p)
